@@ -52,7 +52,7 @@ CLAIMED["C03"] = dict(
           "between the two paragraph state machines and induction over blocks/tables/parts; C03_spans_partition; "
           "C03_indexed_text_is_annotated_document (what an offset can denote: the indexed raw text is the rendering of a flat "
           "segment list whose text characters are, in order, the document's characters tagged by their open marks, prefixes "
-          "and separators bare - every document). Tie: "
+          "and separators bare - every document); C03_raw_index_reads_as_accepted_index_partial. Tie: "
           "both models are compared with the real reader and mapper on every generated document (both views); oracle: "
           "reader text == engine text, spans partition the text and real spans point into their run. The clause 'an "
           "indexed edit changes exactly the addressed characters' is decided by this check's indexed-edit oracles (ranges "
@@ -97,7 +97,9 @@ CLAIMED["C04"] = dict(
           "exactly one snapshot of the open changes / comment ranges per text-carrying run), C04_block_lists_open_changes_once / "
           "C04_block_lists_anchored_comments (inside one block: one [Chg:id] line per open change, none twice; a [Com:id] line for "
           "every open comment the comment map knows); C04_document_read_accepted_partial "
-          "/ C04_document_flat_balanced_partial (whole documents: stories, nested and merged tables, by mutual induction) "
+          "/ C04_document_flat_balanced_partial / C04_accepted_view_is_undeleted_characters_partial (whole documents: stories, "
+          "nested and merged tables, by mutual induction; the accepted view is exactly the not-deleted characters of the tagged "
+          "document text) "
           "under the decidable domain domDoc (brace-free texts, no container that is empty only in the accepted view) with "
           "C04_deleted_only_container_counterexample showing the hypothesis is needed (= open finding "
           "F-deleted-only-container, replayed on the implementation); C04_vmerge_duplicate_counterexample and "
@@ -139,7 +141,8 @@ CLAIMED["C06"] = dict(
           "C06_accept_each_eq_acceptAll — all documents, all sequences; and on the whole main story (tables included): "
           "C06_commute_doc, C06_unknown_skipped_doc, C06_skeleton_untouched_doc; C06_accept_all_raw_view_is_accepted_view and "
           "C06_resolved_paragraph_reads_the_same (reader model: what accept-all leaves of a paragraph, and any paragraph whose "
-          "changes were all resolved, has no wrapper and no metadata - raw view == accepted view). " + ENGINE_TIE + "Oracle: per-character "
+          "changes were all resolved, has no wrapper and no metadata - raw view == accepted view; "
+          "C06_accept_all_story_reads_the_same lifts it to the whole main story, nested tables included). " + ENGINE_TIE + "Oracle: per-character "
           "reference semantics on the independent reader's view, counts, accept-each == accept-all == accepted view; "
           "random and exhaustive short action sequences incl. unknown / malformed / quoted ids."),
     note=NOTE_COMMON + "changes inside headers/footers cannot be addressed (only the main part is searched).",
@@ -184,7 +187,9 @@ CLAIMED["C10"] = dict(
           "C10_comment_shown_with_insertion / _deletion / _replacement (engine shape read by the reader model: the comment id and "
           "the change id are open in one snapshot of the paragraph's metadata, hence rendered in one block - any surrounding "
           "paragraph content); C10_reply_shown_with_thread (whenever the reader writes a comment into a metadata block, every "
-          "comment whose parent it is has its line in that block). " + ENGINE_TIE +
+          "comment whose parent it is has its line in that block); C10_new_comment_read_back (layers E+D: the reader's comment map "
+          "of the document add_comment produced has the new id with exactly that text and the session's author, whatever the "
+          "document held before). " + ENGINE_TIE +
           "Oracle: every applied commented edit (replacement, insertion, deletion, multi-line, heading) has exactly one "
           "new comment anchored on its own marks and shown with them in the raw view; replies threaded and shown with "
           "their thread; unknown parents skipped."),
@@ -193,12 +198,16 @@ CLAIMED["C10"] = dict(
     design="§5 C10, §13.2")
 CLAIMED["C16"] = dict(
     text=("Lean theorems: C16_inherits (every inserted run carries the other run properties of the style source), "
-          "C16_literal (text without a well-formed span is inserted literally as one run), C16_heading_style. " +
+          "C16_style_source_in_paragraph, C16_literal (text without a well-formed span is inserted literally as one run), "
+          "C16_only_markers_removed (for every new text the characters of the inserted runs are a subsequence of it and every "
+          "character other than * and _ is kept, in order: rendering can only remove span delimiters - by induction over the "
+          "parser with a specification of the span finder), C16_heading_line / C16_hash_line_kept (a line is a heading of "
+          "level n exactly by n hashes and a blank; '#1 priority' keeps every character), C16_heading_style. " +
           ENGINE_TIE + "Oracle: run properties of inserted runs equal an original neighbour's, spans rendered, literal "
           "punctuation and '#' lines handled ([___], snake_case, 2*3*4, #hashtag)."),
     note=NOTE_COMMON + "'well-formed span' is defined next to the theorem (Props/C16.lean).",
-    technique="Lean 4 proof on the insertion model + differential correspondence + formatting oracle",
-    design="§5 C16")
+    technique="Lean 4 proof on the insertion model and the inline-Markdown parser model + differential correspondence + formatting oracle",
+    design="§5 C16, §13.7")
 
 CLAIMED["C12"] = dict(
     text=("Lean theorems (every pair of texts / every raw diff list): C12_text_roundtrip_partial (the computed script, "
